@@ -19,6 +19,15 @@ from pbt.ledger import Ledger
 
 NPROC = int(os.environ.get("VERIF_NPROC", "16"))
 
+# The per-check thorough budgets were sized while the machine was shared by many builders; measured alone the
+# thorough tier takes 0.5-6 min per property. They are scaled up here to use ~10-20 min each.
+THOROUGH_SCALE = {"C02": 3.0, "C03": 2.5, "C04": 2.0, "C05": 2.0, "C07": 3.0, "C08": 1.5, "C09": 1.5, "C13": 3.0, "C15": 3.0,
+                  "C12": 1.5}
+THOROUGH_SCALE_DEFAULT = 5.0
+# same for the quick tier: target ~30-60 s wall per property on 16 cores
+QUICK_SCALE = {"C10": 2.0, "C11": 3.0, "C14": 3.0, "C15": 2.0, "C16": 3.0, "C17": 4.0, "C18": 4.0, "C19": 4.0, "C20": 3.0,
+               "C06": 1.5, "C08": 1.5}
+
 
 def load_prop(prop):
     return importlib.import_module(f"pbt.props.{prop}")
@@ -70,7 +79,9 @@ def _task(args):
         if hasattr(mod, "worker_init"):
             mod.worker_init()
         if check.mode == "hyp":
-            total = int(check.budget[tier] * budget_scale)
+            tier_scale = (THOROUGH_SCALE.get(prop, THOROUGH_SCALE_DEFAULT) if tier == "thorough"
+                          else QUICK_SCALE.get(prop, 1.0))
+            total = int(check.budget[tier] * budget_scale * tier_scale)
             n = max(1, math.ceil(total / nshards))
             shrink = check.shrink if tier == "thorough" else check.shrink_quick
             core.drive_hyp(check, n, derive_seed(seed, prop, check.name, shard), ctx, ledger, shrink=shrink)
